@@ -127,7 +127,8 @@ def main(p):
                 return fail(cell, client, hist, 'timeout-later' + what, f'attempt {i} timeout {e["timeout"]} exceeds {limit} (remaining {remaining}, entry {tmo})')
 
     def overrides(cell):
-        if cell['id'].replace('doubled-option/', '') not in ('single/UNAVAILABLE', 'unnamed/Ret', 'policy/typical', 'timeout=None/policy=True', 'stream/policy+timeout', 'unnamed/stream'):
+        if cell['id'].replace('doubled-option/', '') not in ('single/UNAVAILABLE', 'unnamed/Ret', 'policy/typical', 'timeout=None/policy=True', 'stream/policy+timeout', 'unnamed/stream',
+                                                              'client-stream/policy+timeout', 'bidi/policy+timeout'):
             return
         custom = dict(initialBackoff='1s', maxBackoff='1s', backoffMultiplier=1)
         yield 'retry=None', dict(retry=None), ['UNAVAILABLE', 'OK'], dict(retry_codes=[], policy=None)
@@ -141,6 +142,8 @@ def main(p):
     def drive_blocking(kind):
         clients = {}
         for cell in a['cells']:
+            if cell.get('cstream') and kind != 'sync':
+                continue        # request-streaming methods: gRPC only, driven through the sync client
             lib = libs[cell.get('package', a['package'])]
             if cell['service'] not in clients:
                 clients[cell['service']] = lib.sync(cell['service'], clock) if kind == 'sync' else (lib.rest(cell['service']), seam)
@@ -149,7 +152,10 @@ def main(p):
             stream = cell.get('stream', False)
 
             def call(**kw):
-                ret = meth(request={'name': 'n'}, **kw)
+                if cell.get('cstream'):
+                    ret = meth(requests=iter([{'name': 'n'}]), **kw)
+                else:
+                    ret = meth(request={'name': 'n'}, **kw)
                 if stream:
                     list(ret)
 
@@ -203,6 +209,8 @@ def main(p):
     async def amain():
         aclients = {}
         for cell in a['cells']:
+            if cell.get('cstream'):
+                continue
             if cell['service'] not in aclients:
                 aclients[cell['service']] = libs[cell.get('package', a['package'])].aio(cell['service'], clock)
             client, ch = aclients[cell['service']]
